@@ -80,7 +80,7 @@ func c15LazyCaller(bf parquet.BloomFilter, v parquet.Value, out *c15LazyResult, 
 
 // c15CallersSettled waits until `want` goroutines running c15LazyCaller are parked on a lock or have
 // returned. It returns how many are parked, or -1 when the cap expired first.
-func c15CallersSettled(done []*atomic.Bool, exclude int, limit time.Duration) int {
+func c15CallersSettled(done []*atomic.Bool, exclude int, limit time.Duration, fn string) int {
 	start := time.Now()
 	buf := make([]byte, 1<<18)
 	for {
@@ -100,7 +100,7 @@ func c15CallersSettled(done []*atomic.Bool, exclude int, limit time.Duration) in
 		}
 		blocked := 0
 		for _, block := range strings.Split(string(buf[:n]), "\n\n") {
-			if !strings.Contains(block, "props.c15LazyCaller") || strings.Contains(block, "c15Gate).ReadAt") {
+			if !strings.Contains(block, fn+"(") || strings.Contains(block, "c15Gate).ReadAt") {
 				continue
 			}
 			head, _, _ := strings.Cut(block, "\n")
@@ -143,6 +143,7 @@ func RunC15LazyLoad(ctx *core.Ctx) {
 	}
 	r := ctx.Rand("lazyload")
 	cases := ctx.Scale(60, 600)
+	defer c15LazyCasCases(ctx, ctx.Rand("lazyload-cas"), ctx.Scale(40, 400))
 	for c := 0; c < cases; c++ {
 		n := 50 + r.Intn(400)
 		rows := make([]c15LazyRow, n)
@@ -231,7 +232,7 @@ func RunC15LazyLoad(ctx *core.Ctx) {
 			wg.Add(1)
 			go c15LazyCaller(bf, values[i], &got[i], done[i], &wg)
 		}
-		settled := c15CallersSettled(done[:1+early], 0, 3*time.Minute)
+		settled := c15CallersSettled(done[:1+early], 0, 3*time.Minute, "props.c15LazyCaller")
 		if settled < 0 {
 			ctx.Observe("lazyload-callers-unsettled", "callers started during the load were neither finished nor parked on a lock when the harness gave up waiting (slow machine); no verdict is derived from it", detail)
 			close(gate.release)
@@ -297,6 +298,154 @@ func RunC15LazyLoad(ctx *core.Ctx) {
 		if ans[0] != obs {
 			detail["model"], detail["observed"] = ans[0], obs
 			ctx.Fail("L2", "once-load-protocol-differs", "callers of Check on a lazily loaded gzip bloom filter do not behave like the Lean model of the once-guarded load (PqModel.OnceLoad, Props.C15.once_load_serial) under the same schedule: `blocked` = waits for the load, `pass`,`rnil` = went on and answered from the not yet loaded state (Props.C15.once_flag_slip_not_serial)", detail)
+		}
+	}
+}
+
+// ---------------------------------------------------------------- CAS-published pointers under a chosen schedule
+
+// c15LazyIndexCaller is one caller of ColumnIndex / OffsetIndex / BloomFilter on a column chunk whose
+// page index and bloom filter header were skipped at open (file.go readColumnIndexFrom,
+// readOffsetIndex, readBloomFilter: load; read + decode; CompareAndSwap; load).
+func c15LazyIndexCaller(cc parquet.ColumnChunk, kind int, out *any, text *string, done *atomic.Bool, wg *sync.WaitGroup) {
+	defer wg.Done()
+	defer done.Store(true)
+	switch kind {
+	case 0:
+		ci, err := cc.ColumnIndex()
+		if err != nil {
+			*text = "error: " + err.Error()
+			return
+		}
+		*out = ci
+		var sb strings.Builder
+		for p := 0; p < ci.NumPages(); p++ {
+			fmt.Fprintf(&sb, "%s..%s n%d %v|", ci.MinValue(p), ci.MaxValue(p), ci.NullCount(p), ci.NullPage(p))
+		}
+		*text = sb.String()
+	case 1:
+		oi, err := cc.OffsetIndex()
+		if err != nil {
+			*text = "error: " + err.Error()
+			return
+		}
+		*out = oi
+		var sb strings.Builder
+		for p := 0; p < oi.NumPages(); p++ {
+			fmt.Fprintf(&sb, "@%d+%d r%d|", oi.Offset(p), oi.CompressedPageSize(p), oi.FirstRowIndex(p))
+		}
+		*text = sb.String()
+	default:
+		bf := cc.BloomFilter()
+		*out = bf
+		if bf == nil {
+			*text = "nil"
+			return
+		}
+		*text = fmt.Sprintf("size %d", bf.Size())
+	}
+}
+
+// c15LazyCasCases: caller 0 is parked inside its read of the index (it has seen the nil pointer);
+// the others run meanwhile — the protocol has no lock, so none of them may block: the first of them
+// publishes its value, the rest find or lose against it — then caller 0 is let go: its
+// CompareAndSwap fails and it must come back with the published pointer, not with its own
+// (Props.C15.cas_publish_unique: all callers return one pointer; reader_progress: nobody waits).
+func c15LazyCasCases(ctx *core.Ctx, r interface{ Intn(int) int }, cases int) {
+	for c := 0; c < cases; c++ {
+		n := 50 + r.Intn(300)
+		rows := make([]c15LazyRow, n)
+		for i := range rows {
+			rows[i] = c15LazyRow{ID: int64(i) * 3, Name: fmt.Sprintf("name-%04d", i)}
+		}
+		var file bytes.Buffer
+		gz := r.Intn(2) == 0
+		wopts := []parquet.WriterOption{parquet.BloomFilters(parquet.SplitBlockFilter(10, "id"), parquet.SplitBlockFilter(10, "name")),
+			parquet.PageBufferSize(64 + r.Intn(500)), parquet.MaxRowsPerRowGroup(int64([]int{40, 1000}[r.Intn(2)]))}
+		if gz {
+			wopts = append(wopts, parquet.BloomFilterCompression(&parquet.Gzip))
+		}
+		w := parquet.NewGenericWriter[c15LazyRow](&file, wopts...)
+		if _, err := w.Write(rows); err != nil {
+			ctx.Fail("L2", "lazyload-setup", "cannot write the file: "+err.Error(), nil)
+			return
+		}
+		if err := w.Close(); err != nil {
+			ctx.Fail("L2", "lazyload-setup", "cannot write the file: "+err.Error(), nil)
+			return
+		}
+		data := file.Bytes()
+		gate := &c15Gate{r: bytes.NewReader(data)}
+		f, err := parquet.OpenFile(gate, int64(len(data)), parquet.SkipPageIndex(true), parquet.SkipBloomFilters(true))
+		if err != nil {
+			ctx.Fail("L2", "lazyload-setup", "cannot open the file: "+err.Error(), nil)
+			return
+		}
+		ref, err := parquet.OpenFile(bytes.NewReader(data), int64(len(data)))
+		if err != nil {
+			ctx.Fail("L2", "lazyload-setup", "cannot open the file: "+err.Error(), nil)
+			return
+		}
+		g, col, kind := r.Intn(len(f.RowGroups())), r.Intn(2), r.Intn(3)
+		cc := f.RowGroups()[g].ColumnChunks()[col]
+		k := 2 + r.Intn(4)
+		what := []string{"ColumnIndex", "OffsetIndex", "BloomFilter"}[kind]
+		canon := fmt.Sprintf("cas %s rows=%d gzip=%v rg=%d col=%d k=%d", what, n, gz, g, col, k)
+		ctx.Case(canon, true)
+		ctx.Hist("cas_publish_call", what)
+		detail := map[string]any{"case": canon,
+			"replay": fmt.Sprintf("VERIF_SEED=%d VERIF_ONLY=lazyload ./check C15 %s (cas case %d); standalone: write %d rows {id: 3*i, name: name-%%04d} with bloom filters on both columns (gzip=%v); OpenFile(SkipPageIndex(true), SkipBloomFilters(true)) over an io.ReaderAt that holds back its next read; goroutine 0 calls RowGroups()[%d].ColumnChunks()[%d].%s() (parks in the read), %d more goroutines make the same call, then the read is let go: all %d results must be one pointer with the content a second File yields",
+				ctx.Seed, ctx.Tier, c, n, gz, g, col, what, k-1, k)}
+		var want string
+		{
+			var o any
+			var d atomic.Bool
+			var wg sync.WaitGroup
+			wg.Add(1)
+			c15LazyIndexCaller(ref.RowGroups()[g].ColumnChunks()[col], kind, &o, &want, &d, &wg)
+		}
+		outs, texts := make([]any, k), make([]string, k)
+		done := make([]*atomic.Bool, k)
+		for i := range done {
+			done[i] = new(atomic.Bool)
+		}
+		var wg sync.WaitGroup
+		gate.arm()
+		wg.Add(1)
+		go c15LazyIndexCaller(cc, kind, &outs[0], &texts[0], done[0], &wg)
+		<-gate.entered
+		for i := 1; i < k; i++ {
+			wg.Add(1)
+			go c15LazyIndexCaller(cc, kind, &outs[i], &texts[i], done[i], &wg)
+		}
+		blocked := c15CallersSettled(done, 0, 3*time.Minute, "props.c15LazyIndexCaller")
+		close(gate.release)
+		wg.Wait()
+		if blocked < 0 {
+			ctx.Observe("lazyload-callers-unsettled", "callers started during the load were neither finished nor parked on a lock when the harness gave up waiting (slow machine); no verdict is derived from it", detail)
+			return
+		}
+		detail["results"] = texts
+		detail["serial"] = want
+		if blocked > 0 {
+			detail["blocked"] = blocked
+			ctx.Fail("L2", "cas-publish-protocol-differs", fmt.Sprintf("%d callers of %s() waited for the caller that was reading the index; the Lean model of the publication (PqModel.CasPublish) has no waiting: every reader computes its own value and the CompareAndSwap decides", blocked, what), detail)
+		}
+		for i := range outs {
+			if texts[i] != want {
+				detail["caller"] = i
+				ctx.Fail("L1", "lazy-index-differs-from-serial", fmt.Sprintf("%s() of caller %d returned %q; a serial execution returns %q", what, i, texts[i], want), detail)
+				break
+			}
+			if outs[i] != outs[1] {
+				detail["caller"] = i
+				when := "it ran while goroutine 0 was reading the index"
+				if i == 0 {
+					when = "it was the first to start reading and the last to finish: its CompareAndSwap failed"
+				}
+				ctx.Fail("L1", "lazy-index-pointer-differs", fmt.Sprintf("%s() of caller %d returned a different object than caller 1 for the same column chunk (%s); serially every call returns the one published object", what, i, when), detail)
+				break
+			}
 		}
 	}
 }
